@@ -233,7 +233,11 @@ fn clean(path: &str) -> std::io::Result<()> {
     if path.starts_with("/dev/") {
         return Ok(()); // never unlink a device node
     }
-    std::fs::remove_file(path)
+    // Export!Init: the path already holds an older, LONGER export (a save replaces the file's content, it does not write over
+    // its beginning); for the unwritable path kinds this write fails and nothing is there, as before
+    let _ = std::fs::remove_file(path);
+    let stale: String = "chain,observation,dim_0,dim_1\n".to_string() + &"7,7,7.5,7.5\n".repeat(6000);
+    std::fs::write(path, stale)
 }
 
 /// Is /dev/full what it should be here (a character device whose writes fail)?  Where it is not, the `full` cases are skipped
